@@ -131,3 +131,13 @@ Definition dcheck (c : dcase) : nat :=
 
 Definition dmismatches (cs : list dcase) : list (N * nat) :=
   flat_map (fun c => match dcheck c with O => [] | k => [(dc_id c, k)] end) cs.
+
+(* ---- the requester's side of one swap over the real transport ---- *)
+Record arcase := AR { rc_id : N; rc_checklen : bool; rc_thr : nat; rc_self : N; rc_peer : N;
+                      rc_reply : Z * list Z; rc_ok : bool }.
+Definition archeck (c : arcase) : bool :=
+  let g := {| g_thr := rc_thr c; g_parts := [rc_self c; rc_peer c]; g_poly := []; g_shares := [(rc_self c, 0)]; g_vvecs := [(rc_self c, [])] |} in
+  let n := {| nd_id := rc_self c; nd_gens := [("a"%string, g)]; nd_accts := [] |} in
+  Bool.eqb (match accept_reply {| check_len := rc_checklen c |} n "a"%string (rc_peer c) (fst (rc_reply c)) (snd (rc_reply c)) with DOk _ => true | _ => false end)
+           (rc_ok c).
+Definition armismatches (l : list arcase) : list N := map rc_id (filter (fun c => negb (archeck c)) l).
